@@ -206,7 +206,8 @@ func (g *G) line(format string, a ...interface{}) {
 	g.b.WriteString("\n")
 }
 
-var varNames = []string{"a", "b", "c", "d", "x", "y", "z", "n", "m", "k", "v", "w", "acc", "tmp", "res", "cur", "lo", "hi", "idx", "cnt"}
+var varNames = []string{"a", "b", "c", "d", "x", "y", "z", "n", "m", "k", "v", "w", "acc", "tmp", "res", "cur", "lo", "hi", "idx", "cnt",
+	"_a", "_tmp", "a_b", "x_1", "_0", "ñ", "Δx", "camelCase", "ALLCAPS", "veryLongIdentifierNameThatGoesOnAndOn", "i", "j", "ok", "err", "s", "t", "p", "q"}
 
 // fresh returns a variable name. With shadowing on it may re-use a name of an
 // outer scope (never of the current one).
@@ -399,7 +400,7 @@ func nonConst(s string) bool {
 		t = strings.ReplaceAll(t, w, "")
 	}
 	for _, c := range t {
-		if (c >= 'a' && c <= 'z') || (c >= 'A' && c <= 'Z') || c == '_' {
+		if (c >= 'a' && c <= 'z') || (c >= 'A' && c <= 'Z') || c == '_' || c > 127 {
 			return true
 		}
 	}
@@ -1029,42 +1030,70 @@ func (g *G) ifStmt(sc *scope, depth int, tail tailKind) {
 func (g *G) forStmt(sc *scope, depth int) {
 	inner := &scope{parent: sc}
 	bound := 1 + g.rng.Intn(5)
-	switch g.rng.Intn(3) {
-	case 0:
-		// three-clause loop; the loop variable never hides a live outer name (quarantined finding)
+	// every subset of init / cond / post
+	counter := func(feat string) string {
+		cv := g.fresh(sc, false)
+		g.feat(feat)
+		g.line("var %s uint64 = 0", cv)
+		sc.vars = append(sc.vars, &variable{name: cv, t: TU64, used: true, loopVar: true, knownLen: -1})
+		return cv
+	}
+	loopVarName := func() string {
+		// the loop variable never hides a live outer name (quarantined finding)
 		var iv string
 		if g.opt.KnownForInitShadow {
 			iv = g.fresh(inner, true)
 		} else {
 			iv = g.fresh(inner, false)
 		}
-		g.feat("for-3clause")
-		it := TU64
+		inner.vars = append(inner.vars, &variable{name: iv, t: TU64, used: true, loopVar: true, knownLen: -1})
+		return iv
+	}
+	switch g.rng.Intn(8) {
+	case 0:
+		iv := loopVarName()
+		g.feat("for-init-cond-post")
 		g.line("for %s := uint64(%d); %s < %d; %s++ {", iv, g.rng.Intn(3), iv, bound+2, iv)
-		lv := &variable{name: iv, t: it, used: true, loopVar: true}
-		inner.vars = append(inner.vars, lv)
 	case 1:
-		// condition-only loop over a fresh counter declared before it
-		cv := g.fresh(sc, false)
-		g.feat("for-cond-only")
-		g.line("var %s uint64 = 0", cv)
-		sc.vars = append(sc.vars, &variable{name: cv, t: TU64, used: true, loopVar: true})
+		cv := counter("for-cond-only")
 		g.line("for %s < %d {", cv, bound)
-		g.ind++
-		g.line("%s += 1", cv)
-		g.ind--
+		g.line("\t%s += 1", cv)
 	case 2:
-		cv := g.fresh(sc, false)
-		g.feat("for-infinite-break")
-		g.line("var %s uint64 = 0", cv)
-		sc.vars = append(sc.vars, &variable{name: cv, t: TU64, used: true, loopVar: true})
+		cv := counter("for-infinite-break")
 		g.line("for {")
-		g.ind++
-		g.line("if %s >= %d {", cv, bound)
-		g.line("\tbreak")
-		g.line("}")
-		g.line("%s = %s + 1", cv, cv)
-		g.ind--
+		g.line("\tif %s >= %d {", cv, bound)
+		g.line("\t\tbreak")
+		g.line("\t}")
+		g.line("\t%s = %s + 1", cv, cv)
+	case 3:
+		cv := counter("for-cond-post")
+		g.line("for ; %s < %d; %s++ {", cv, bound, cv)
+	case 4:
+		cv := counter("for-post-only")
+		g.line("for ; ; %s += 2 {", cv)
+		g.line("\tif %s >= %d {", cv, bound)
+		g.line("\t\tbreak")
+		g.line("\t}")
+	case 5:
+		iv := loopVarName()
+		g.feat("for-init-post")
+		g.line("for %s := uint64(0); ; %s++ {", iv, iv)
+		g.line("\tif %s >= %d {", iv, bound)
+		g.line("\t\tbreak")
+		g.line("\t}")
+	case 6:
+		iv := loopVarName()
+		g.feat("for-init-cond")
+		g.line("for %s := uint64(%d); %s < %d; {", iv, g.rng.Intn(2), iv, bound+1)
+		g.line("\t%s = %s + 1", iv, iv)
+	case 7:
+		iv := loopVarName()
+		g.feat("for-init-only")
+		g.line("for %s := uint64(0); ; {", iv)
+		g.line("\tif %s >= %d {", iv, bound)
+		g.line("\t\tbreak")
+		g.line("\t}")
+		g.line("\t%s += 1", iv)
 	}
 	g.ind++
 	g.loopDepth++
